@@ -707,6 +707,9 @@ func (r *rpf) expr(e ast.Expr) *Val {
 			if v.K == VInt {
 				return r.wrap(vint(-v.I), info.TypeOf(e))
 			}
+			if v.K == VFloat {
+				return &Val{K: VFloat, F: -v.F}
+			}
 		case token.ADD:
 			return v
 		case token.XOR:
